@@ -346,6 +346,6 @@ func init() {
 		Level:       "other",
 		Explanation: "Only structural clauses are decided: directory contents are accessed only under a directory lock (lock-flow engine with a guarded-by table); the change counter has a single incrementing writer, every map change bumps it on all paths, cookies are pre-increment values and ChangeInfo brackets the modification; nothing is attached to a removed directory; a listing re-seeks from its current entry. Equivalence with a POSIX reference model (rename/remove rules, hard links) and readdir completeness under concurrent mutation are NOT decided.",
 		Assumptions: []string{"class-level lock identity: a lock of some directory counts for the directory being accessed (parent/child relations are not tracked)"},
-		Rules:       []RuleFunc{c13Guarded, c13ChangeID, c13NoAttachDeleted, c13Reseek, c13DeleteSelf, c13LinkBalance, c13Revalidate, c13UnlinkDetached, c13RemovalRules},
+		Rules:       []RuleFunc{c13Guarded, c13ChangeID, c13NoAttachDeleted, c13Reseek, c13DeleteSelf, c13LinkBalance, c13Revalidate, c13UnlinkDetached, c13RemovalRules, c13HiddenOnlyLeaves},
 	})
 }
